@@ -264,6 +264,11 @@ def build_case(rng, nquery, tokens):
     qkinds = [rng.choice(KINDS) for _ in range(nquery)]
     aliased = [rng.random() < 0.2 for _ in range(nquery)]
     query = [[QNAMES[i], qkinds[i], f'q_{QNAMES[i]}' if aliased[i] else None] for i in range(nquery)]
+    if rng.random() < 0.25:
+        # an output named like the positional key of an un-named schema field (``_1`` is what an un-aliased expression at
+        # position 1 is called - and what the second field of any entry schema answers to as an attribute)
+        victim = rng.randrange(nquery)
+        query[victim][2] = f'_{rng.choice([victim, (victim + 1) % max(2, nquery), 0, 1])}'
     cast_bias = rng.choice([0.0, 0.5, 0.5, 1.0])
     entry = []
     makers = []
